@@ -82,6 +82,14 @@ def h_correct(locus, tid, i, j, preset, shape, strategy=None):
             cut = g.int("inner_exon_cut", 1, 40)
             read = [read[0], (read[1][0] + cut, read[1][1])] + read[2:]
             g.add(read[1][0] + 5 <= read[1][1])
+        elif shape == "two_novel_inner" and len(read) >= 2:
+            # two novel exons inside the first intron: three read introns against one isoform intron
+            a0, b0 = exons[0][1] + 1, exons[1][0] - 1
+            o1, o2 = g.int("novel_exon1_offset", 0, 60), g.int("novel_exon2_offset", 0, 60)
+            third = (b0 - a0) // 3
+            e1 = (a0 + 80 + o1, a0 + 80 + o1 + 60)
+            e2 = (a0 + third + 120 + o2, a0 + third + 120 + o2 + 60)
+            read = [read[0], e1, e2] + read[1:]
         prof, ra = assign(g, gi, params, read)
         errs = [g.int("indel_count", 0), g.int("mismatch_count", 0)]
         ai = Obj(read_exons=list(read), read_start=read[0][0], read_end=read[-1][1], combined_profile=prof,
@@ -159,7 +167,8 @@ def instances(tier, seed):
                 n = len(exons)
                 if n < 2:
                     continue
-                shapes = ["follow"] + (["drop_inner", "short_inner"] if n >= 3 else [])
+                shapes = ["follow"] + (["two_novel_inner"] if (not q or (locus, tid) == ("skip", "T2")) else []) + \
+                    (["drop_inner", "short_inner"] if n >= 3 else [])
                 for si, shape in enumerate(shapes):
                     for strategy in ([["none", "default_ont"][(seed + li + ti + si) % 2], "all"] if q else strategies):
                         out.append(Instance("correct[%s,%s,%s,%s,%s]" % (locus, tid, shape, preset, strategy),
